@@ -224,7 +224,7 @@ impl Model for E1Model {
         };
         let item = if s.constructed { Some(s.steps as usize) } else { None };
         let after_end_call = s.constructed && r.end == RefEnd::Done && s.steps as usize >= r.items.len();
-        let seen = Seen { case, script: &steps_list, reference: &r, obs: &obs, item, after_end: after_end_call };
+        let seen = Seen { case, script: &steps_list, reference: &r, obs: &obs, item, after_end: after_end_call && s.steps as usize > r.items.len() };
         let verdict = self.with_stats(|st| {
             st.transitions += 1;
             st.traces += 1;
@@ -251,7 +251,7 @@ impl Model for E1Model {
                     }
                 }
                 RefEnd::Done => {
-                    if s.after_end + (after_end_call as u8) < 2 {
+                    if s.after_end + (after_end_call as u8) < 3 {
                         Next::Plain
                     } else {
                         Next::Terminal
